@@ -44,13 +44,6 @@ theorem mem_foldl_assocDel {κ α : Type} [DecidableEq κ] (ks : List κ) (l : L
   | nil => exact h
   | cons k t ih => exact mem_assocDel (ih _ h)
 
-/-- key object `k` is the stored key of `m`'s id — exactly `m` unless `m` is the "latest" meta. -/
-def GoodFor (m : KeyMeta) (k : Nat) (w : World) : Prop :=
-  ∃ m0 : KeyMeta, m0.kid = m.kid ∧ (m.created ≠ 0 → m0 = m) ∧ GoodKeyAt w m0 k
-
-theorem Stable.goodFor (m : KeyMeta) (k : Nat) : Stable (fun w => GoodFor m k w) :=
-  ⟨fun w w' he ⟨m0, h1, h2, h3⟩ => ⟨m0, h1, h2, h3.ext he⟩⟩
-
 theorem cacheGet_spec {a : Nat} {F : Prop} {P : World → Prop} (c : Nat) (m : KeyMeta) :
     Spec a F P (cacheGet c m) (fun eo w => ∀ e, eo = some e → GoodKeyAt w m e.obj) := by
   unfold cacheGet
@@ -130,7 +123,7 @@ theorem getFresh_spec {a : Nat} {F : Prop} {P : World → Prop} (c : Nat) (m : K
     apply Spec.pre (P := fun w => GoodFor m e.obj w) (fun w _ h => h e rfl)
     apply Spec.bind_frame (keyObj_spec' _) (fun _ _ _ => trivial) (Stable.goodFor _ _)
     intro ko
-    apply Spec.bind_frame Spec.get (fun _ _ _ => trivial) (by stable_auto [Stable.goodFor])
+    apply Spec.bind_frame Spec.get (fun _ _ _ => trivial) (by stable_auto)
     intro w0
     split
     · exact Spec.pure _ fun w _ h k hk => by cases hk; exact h.1.1
@@ -238,7 +231,7 @@ theorem cacheLoad_spec {a : Nat} {F : Prop} {LP : World → Prop} (c : Nat) (m :
   split
   · rename_i e
     apply Spec.pre (P := fun w => GoodFor m k w ∧ GoodFor m e.obj w) (fun w _ h => ⟨h.1, h.2 e rfl⟩)
-    apply Spec.bind_frame (keyObj_spec' e.obj) (fun _ _ _ => trivial) (by stable_auto [Stable.goodFor])
+    apply Spec.bind_frame (keyObj_spec' e.obj) (fun _ _ _ => trivial) (by stable_auto)
     intro eko
     apply Spec.ite <;> intro _
     · apply Spec.pre (P := fun w => GoodFor m e.obj w) (fun w _ h => h.1.2)
@@ -328,10 +321,10 @@ theorem getOrLoadLatest_spec {a : Nat} {F : Prop} {LP : World → Prop} (c : Nat
           keyIncr key
           pure key) (GoodFor ⟨kid, 0⟩) := by
       intro key
-      apply Spec.bind_frame (keyObj_spec' key) (fun _ _ _ => trivial) (by stable_auto [Stable.goodFor])
+      apply Spec.bind_frame (keyObj_spec' key) (fun _ _ _ => trivial) (by stable_auto)
       intro ko
       apply Spec.pre (P := fun w => LP w ∧ GoodFor ⟨kid, 0⟩ key w) (fun w _ h => h.1)
-      apply Spec.bind_frame Spec.get (fun _ _ _ => trivial) (by stable_auto [Stable.goodFor])
+      apply Spec.bind_frame Spec.get (fun _ _ _ => trivial) (by stable_auto)
       intro w0
       apply Spec.ite <;> intro _
       · apply Spec.pre (P := LP) (fun w _ h => h.1.1)
@@ -373,7 +366,7 @@ theorem getOrLoadLatest_spec {a : Nat} {F : Prop} {LP : World → Prop} (c : Nat
     split
     · rename_i k
       apply Spec.bind_frame (G1 := fun key w => GoodFor ⟨kid, 0⟩ key w) (P' := fun w => GoodFor ⟨kid, 0⟩ k w)
-        (Spec.pure k fun w _ h => h) (fun w _ h => h.2 k rfl) (by stable_auto [Stable.goodFor])
+        (Spec.pure k fun w _ h => h) (fun w _ h => h.2 k rfl) (by stable_auto)
       intro key
       exact (rest key).pre fun w _ h => ⟨h.1.1, h.2⟩
     · apply Spec.pre (P := LP) (fun w _ h => h.1)
